@@ -37,6 +37,7 @@ from quara.protocol.qtomography.standard.standard_qtomography_estimator import (
     StandardQTomographyEstimator,
     StandardQTomographyEstimationResult,
 )
+from quara.utils.number_util import to_stream
 from quara.simulation.generation_setting import (
     QOperationGenerationSettings,
     QOperationGenerationSetting,
@@ -839,6 +840,9 @@ def generate_empi_dists_and_calc_estimate(
     else:
         estimation_results = []
         empi_dists_sequences = []
+        # one random stream for the whole run: an integer seed expanded anew in every
+        # repetition would make all repetitions identical.
+        seed_or_generator = to_stream(seed_or_generator)
         for _ in tqdm(range(iteration)):
             estimation_result, empi_dists_seq = _generate_empi_dists_and_calc_estimate(
                 qtomography,
